@@ -138,6 +138,28 @@ with the implementation. -/
 def HeaderCfg.compile (h : HeaderCfg) (s : Str) : Option (Option RegexId) :=
   if s = h.value ∧ h.rx.ok = true then some (some h.rx.id) else none
 
+/-- `v2.VariableMatcher`; `regex = none` ⇔ `Regex == ""` -/
+structure VarCfg where
+  name : Str
+  value : Str
+  regex : Option Rx
+  model : Str
+deriving DecidableEq, Repr, Inhabited
+
+/-- `matcher.Regex` as far as the parse decision reads it: empty or not (the pattern itself is identified by its oracle
+identifier; its text travels beside the case, see Model/RouteRegex.lean) -/
+def VarCfg.regexText (v : VarCfg) : Str :=
+  match v.regex with
+  | none => []
+  | some _ => ['?']
+
+/-- `regexp.Compile(s)` as `ParseToVariableMatchItem` calls it for the matcher `v`: compiling anything else than the
+configured `Regex` is reported as an error, so code that compiles something else cannot agree with the implementation -/
+def VarCfg.compile (v : VarCfg) (s : Str) : Option (Option RegexId) :=
+  match v.regex with
+  | some r => if s = v.regexText ∧ r.ok = true then some (some r.id) else none
+  | none => none
+
 /-- `len(l)` of a Go slice -/
 def listLen {α : Type} (l : List α) : Int := l.length
 
